@@ -16,7 +16,9 @@ RULE = ("drawing programs over a 6x6 grid obtained by embedding random circuits 
         "(chains, junctions, redundant loops), 0-3 node labels, a ground symbol or none; per program the base drawing and 4 transforms "
         "(rotation by 90/180/270 degrees, translation, drawing unit/step, wires split into 2-3 segments, insertion order). Oracle: an "
         "independent union-find 'turtle' model on the program's grid coordinates + component table; components compared by id, kind, "
-        "value and a node bijection; the solved translated circuit is compared with the exact solution of the intended netlist. "
+        "value and a node bijection; the solved translated circuit is compared with the exact solution of the intended netlist; "
+        "SchematicDiagramParser.ground_label against the grounded node; for drawings of the resistor/impedance/DC-source subset the "
+        "direct drawing -> Network translation (network_translator) is solved and compared as well. "
         "Non-trivial: >=2 symbols incl. >=1 source; distinct by (symbol multiset, wire-tree shape class, transform).")
 ASSUMPTIONS = [
     "schemdraw places two-terminal symbols given by .endpoints(p, q) with start = p and end = q (trusted base; confirmed by the monitor reading absanchors)",
@@ -34,8 +36,14 @@ PASSIVE = ['resistor', 'resistor', 'conductance', 'impedance', 'lamp']
 
 
 def random_drawing_circuit(rng, family=None, max_nodes=4, max_comps=6):
-    family = family or rng.choice(['dc', 'dc', 'ac', 'ac', 'complex'])
+    family = family or rng.choice(['dc', 'dc', 'ac', 'ac', 'complex', 'net'])
     w = G.value(rng, 1, 3)
+    if family == 'net':
+        # the symbol subset that network_translator (drawing -> Network, no Circuit in between) understands
+        cd = GC.random_circuit(rng, max_nodes=max_nodes, max_comps=max_comps, passives=['resistor', 'resistor', 'impedance'], n_reactive=(0, 0), sources=SRC_SETS['dc'],
+                               n_sources=(1, 2), freqs=[w], ground_prob=0.8, lossy=0.0, node_pool=[f'N{k}' for k in range(8)],
+                               id_pool=['R1', 'R2', 'R3', 'Rx', 'Z1', 'Vs', 'Vq', 'Is', 'Iq', 'A', 'B', 'U1', 'S1', 'H1', 'K'])
+        return cd, family, w
     cd = GC.random_circuit(rng, max_nodes=max_nodes, max_comps=max_comps, passives=PASSIVE, n_reactive=(0, 2), sources=SRC_SETS[family], n_sources=(1, 2),
                            freqs=[w], ground_prob=0.8, lossy=0.0, node_pool=[f'N{k}' for k in range(8)],
                            id_pool=['R1', 'R2', 'R3', 'Rx', 'G1', 'Z1', 'Vs', 'Vq', 'Is', 'Iq', 'A', 'B', 'L1', 'C1', 'C2', 'L2', 'U1', 'S1', 'H1', 'La', 'K'])
@@ -269,8 +277,69 @@ def judge_one(ctx, prefix, prog, family, w, tname, base_canon=None):
         return net
     l2m = compare_structure(ctx, prefix, circ, net, tname, rounding_boundary(prog))
     if l2m is not None:
-        solve_and_compare(ctx, prefix, circ, net, l2m, family, w, tname)
+        solve_and_compare(ctx, prefix, circ, net, l2m, 'dc' if family == 'net' else family, w, tname)
+        parser_and_network_clause(ctx, prefix, d, circ, net, l2m, family)
     return net
+
+
+def parser_and_network_clause(ctx, prefix, d, circ, net, l2m, family):
+    """(a) SchematicDiagramParser(d).ground_label names the node the ground symbol sits on; (b) the direct drawing -> Network
+    translation (network_translator) of a drawing made of its symbol subset is the depicted netlist too"""
+    from CircuitCalculator.SimpleCircuit.DiagramParser import SchematicDiagramParser
+    from CircuitCalculator.SimpleCircuit.DiagramTranslator import network_translator
+    from CircuitCalculator.Network.NodalAnalysis.bias_point_analysis import nodal_analysis_bias_point_solver
+    if net['ground'] is not None:
+        gl = call(lambda: SchematicDiagramParser(d).ground_label)
+        ctx.count('ground_labels_checked')
+        if raised(gl):
+            ctx.violation(f'{prefix}/ground-label/raised/{gl.key}', f'SchematicDiagramParser(d).ground_label raised {gl.text}', {})
+        elif l2m.get(gl) != net['ground']:
+            ctx.violation(f'{prefix}/ground-label/not-the-grounded-node', f'ground_label = {gl!r} (depicted node {l2m.get(gl)!r}) but the ground symbol sits on {net["ground"]!r}', {})
+    if family != 'net':
+        return
+    nw = call(network_translator, d)
+    ctx.count('network_translations')
+    if raised(nw):
+        ctx.violation(f'{prefix}/network-translator/raised/{nw.key}', f'network_translator raised {nw.text}', {})
+        return
+    got = sorted(b.id for b in nw.branches)
+    want = sorted(c['id'] for c in net['components'])
+    if got != want:
+        ctx.violation(f'{prefix}/network-translator/branch-set', f'branches {got!r}, depicted components {want!r}', {})
+        return
+    for b in nw.branches:
+        c = next(x for x in net['components'] if x['id'] == b.id)
+        if b.node1 not in l2m or b.node2 not in l2m or sorted((l2m[b.node1], l2m[b.node2])) != sorted(c['nodes']):
+            ctx.violation(f'{prefix}/network-translator/terminals', f'{b.id!r} between {b.node1!r},{b.node2!r} (depicted nodes {l2m.get(b.node1)!r},{l2m.get(b.node2)!r}); the drawing shows it between {c["nodes"]!r}', {})
+            return
+    g = net['ground']
+    if g is not None and l2m.get(nw.node_zero_label) != g:
+        ctx.violation(f'{prefix}/network-translator/reference-node', f'reference node {nw.node_zero_label!r} is not the grounded node', {})
+        return
+    gm = g if g is not None else l2m.get(nw.node_zero_label)
+    cd = {'components': [{'ctor': 'ground', 'id': '__g', 'nodes': [gm], 'args': {}}] + net['components']}
+    refd = netsolve.reference_from_ref(circdesc.ref_network(cd, 0.0, W_RES), {c['id']: c['ctor'] for c in net['components']})
+    if refd is None or refd['kappa'] > netsolve.KAPPA_MAX:
+        ctx.count('set_aside_ill_posed')
+        return
+    sol = call(nodal_analysis_bias_point_solver, nw)
+    if raised(sol):
+        ctx.violation(f'{prefix}/network-translator/solver-raised/{sol.key}', sol.text, {})
+        return
+    rep, tol = refd['rep'], refd['tol'] * 8
+    for b in nw.branches:
+        c = next(x for x in net['components'] if x['id'] == b.id)
+        flip = -1 if (l2m[b.node1], l2m[b.node2]) == (c['nodes'][1], c['nodes'][0]) and c['nodes'][0] != c['nodes'][1] else 1
+        v = call(sol.get_voltage, b.id)
+        if raised(v) or abs(complex(v) - flip * rep['V'][c['id']]) > tol * refd['s_phi']:
+            ctx.violation(f'{prefix}/network-translator/solution-differs/{c["ctor"]}', f'{b.id!r}: V = {v!r} across ({b.node1!r},{b.node2!r}); the depicted netlist gives {flip * rep["V"][c["id"]]!r}', {})
+            return
+    for lab, mn in l2m.items():
+        p = call(sol.get_potential, lab)
+        if raised(p) or abs(complex(p) - rep['phi'][mn]) > tol * refd['s_phi']:
+            ctx.violation(f'{prefix}/network-translator/potential-differs', f'potential({lab!r}) = {p!r}, depicted netlist gives {rep["phi"][mn]!r}', {})
+            return
+    ctx.count('network_translations_compared')
 
 
 def judge_incremental(ctx, prefix, prog, family, w):
@@ -301,7 +370,7 @@ def judge_incremental(ctx, prefix, prog, family, w):
         return
     l2m = compare_structure(ctx, prefix + '/incremental', circ, net, 'incremental', rounding_boundary(prog))
     if l2m is not None:
-        solve_and_compare(ctx, prefix + '/incremental', circ, net, l2m, family, w, 'incremental')
+        solve_and_compare(ctx, prefix + '/incremental', circ, net, l2m, 'dc' if family == 'net' else family, w, 'incremental')
 
 
 def _add_symbols(d, prog, symbols):
@@ -340,7 +409,7 @@ def guards(m, tier):
     c = m['counters']
     r = []
     q = tier == 'quick'
-    for k, need in (('drawings_translated', 400), ('structures_matched', 350), ('solutions_compared', 180)):
+    for k, need in (('drawings_translated', 400), ('structures_matched', 350), ('solutions_compared', 180), ('ground_labels_checked', 200), ('network_translations_compared', 25)):
         need = need if q else need * 15
         if c.get(k, 0) < need:
             r.append(f'{k} = {c.get(k, 0)} (<{need})')
